@@ -300,6 +300,10 @@ def run(r) -> None:
         for xr in (1e-3, 1e-6, 1e3):
             for dt in dts:
                 basis.append(dict(dim=len(shape), shape=shape, x_range=xr, dtype=dt))
+    # one LONG axis (beyond 256 cells, each axis in turn): narrow index types, blocked loops and padded FFT lengths
+    # only show beyond their size threshold
+    for shape, dt in (((2, 300), "float64"), ((300, 2), "float64"), ((3, 270), "float32"), ((2, 2, 280), "float64"), ((2, 280, 2), "float32"), ((280, 2, 2), "float64")):
+        basis.append(dict(dim=len(shape), shape=shape, x_range=X_RANGES[0] if len(shape) == 2 else X_RANGES[2], dtype=dt))
     basis.sort(key=lambda p: -int(np.prod(p["shape"])) ** 2)
     r.run_cases("basis", "basis", basis)
     depth = 3 if quick else 5
@@ -314,7 +318,7 @@ def run(r) -> None:
     r.bounds = {
         "shapes_2d": f"{{{s2.start}..{s2.stop - 1}}}^2" + (" + (7,6),(6,7)" if quick else ""),
         "shapes_3d": f"{{{s3.start}..{s3.stop - 1}}}^3" + (" + (4,3,5),(5,4,2)" if quick else ""),
-        "x_range": X_RANGES + [1e-3, 1e-6, 1e3], "dtypes": dts, "history_depth": depth,
+        "x_range": X_RANGES + [1e-3, 1e-6, 1e3], "long_axis_shapes": "2 x 300, 300 x 2, 3 x 270, 2 x 2 x 280 (long axis in every position)", "dtypes": dts, "history_depth": depth,
         "history_alphabet": "solve(e_first), solve(-3 e_last), solve(1e6*dense), solve(0), vector solve with one zero component (3-D), poison(doubled|fourier|convolution buffer) with NaN and 1e30; solution target never cleared between solves",
     }
     r.extra["rule"] = (
